@@ -498,6 +498,16 @@ def cls(body, o, depth=0):
             d=body.single_def(p['l'])
             if d and d[0]=='call': return cls_call(body,d[3],depth+1,payload=True)
             return 'UNKNOWN:downcast'
+        # a field of a local struct / tuple built in this body carries the class of the operand it was built from
+        if p.get('proj') and len(p['proj'])==1 and p['proj'][0]['k']=='field':
+            d=body.single_def(p['l'])
+            if d and d[0]=='stmt' and d[3]['k']=='assign' and d[3]['rv']['k']=='aggregate' and not d[3]['p'].get('proj'):
+                rv=d[3]['rv']
+                idx=p['proj'][0].get('i')
+                if idx is None and rv.get('fields') and lf['name'] in rv['fields']:
+                    idx=rv['fields'].index(lf['name'])
+                if idx is not None and idx < len(rv['ops']):
+                    return cls(body, rv['ops'][idx], depth+1)
         return 'FIELD:%s'%lf['name']
     l=p['l']
     if body.is_arg(l): return 'PARAM:%s'%body.locals[l].get('name','_%d'%l)
